@@ -186,7 +186,7 @@ PROPS = {
                 assumptions=["with a prior width > 0 the first token of a composite / a null may be padded and the width need not be restored there (property speaks of leaves and of streamable / hex-dumped values)",
                              "a setw() inside a user operator<< may pad on either side with blanks; after a user printer<T> only the text is asserted"]),
     "C10": dict(jobs=[rc_job("m_rc", "M", (3, 10000, 70), (12, 60000, 100)), rc_job("m_rc_gcc", "M", (0, 0, 0), (4, 30000, 100), name="M(g++)"), py_job("compile/k_engine.py", "K", "K(replay only)", replay_only=True)],
-                rule="engine M: rapidcheck generates typed matcher trees of depth <= 4 over 8 parameter domains (int, int*, unique_ptr<int>, shared_ptr<int>, std::string, char const*, struct S, S*) built from the "
+                rule="engine M: rapidcheck generates typed matcher trees of depth <= 4 over 11 parameter domains (int, int*, unique_ptr<int>, shared_ptr<int>, std::string, char const*, struct S, S*, int const*, and the user-defined pointer-likes Handle (implicitly constructible from nullptr, compared only Handle==Handle) and NHandle (nullptr_t comparisons, explicit operator bool), whose dereference while null is counted and is a disagreement by itself) built from the "
                      "library's own matchers and combinators (eq/ne/lt/le/gt/ge, _, ANY, !, *, any_of/all_of/none_of with 1-4 operands, MEMBER_IS, re with flags, plain values; duck-typed and explicitly typed) behind a "
                      "make_matcher wrapper; every tree is evaluated through param_matches on every value of its domain and compared with an independent evaluator; algebraic laws; a sample goes through real mock calls. "
                      "Plus the exhaustive scope of all int trees of depth <= 2. non-trivial = depth >= 2 with a combinator and a relational leaf whose operand lies inside the domain; distinct by tree hash.",
